@@ -106,7 +106,8 @@ Definition RR7 (f m k : Z) (forcereduce recursive : bool) : option res :=
 (* lines 233-236: RationalReconstruction(a,b,x,m) *)
 Definition RR4 (x m : Z) : option res := ratrecon x m (Z.sqrt m) true.
 
-(* lines 243-252: RationalReconstruction(a,b,x,m,a_bound,b_bound)   (body of /repo as of commit 68125ac / 95a3d70)
+(* HISTORY (not extracted, not compared any more): RationalReconstruction(a,b,x,m,a_bound,b_bound) as it was in /repo from
+   68125ac until 224c4ab; kept for C11_rr6_numbound_refuted
      Integer bound = x/bb;
      bool res = ratrecon(a,b,x,m,(bound>a_bound?bound:a_bound),true,false);  return res && (b <= bb);
    `x/bb` is mpz_tdiv_q: for b_bound = 0 GMP raises a division by zero (the process aborts), so the model is PARTIAL there:
@@ -121,9 +122,9 @@ Definition RR6 (x m a_bound b_bound : Z) : option res :=
   | Some (ok, a, b) => Some (ok && (b <=? b_bound), a, b)
   end.
 
-(* the repaired body (frag/C11.fix-2.diff): the numerator bound handed to ratrecon is the caller's numbound
+(* lines 243-249, the body in /repo NOW (224c4ab = frag/C11.fix-2.diff): the numerator bound handed to ratrecon is the caller's numbound
      bool res = ratrecon(a,b,x,m,a_bound,true,false);  return res && (b <= bb);
-   The check reads givratreconstruct.C on every run and compares the implementation with RR6 or RR6f accordingly. *)
+   This is the function the 6-argument call forms are compared with. *)
 Definition RR6f (x m a_bound b_bound : Z) : option res :=
   match ratrecon x m a_bound true with
   | None => None
